@@ -6,6 +6,7 @@ package main
 
 import (
 	"fmt"
+	"sort"
 	"strings"
 	"time"
 
@@ -147,22 +148,54 @@ type EnumEnv struct {
 	Desc           string   // description of the enum
 	OptDescs       []string // description per option (parallel to Options)
 	UnspecDesc     string
+	OptInfos       []map[string]string // info per option (parallel to Options)
+	UnspecInfo     map[string]string
+	InfoFields     [][3]string // the enum's info fields: name, label, description
 }
 
 // EnumDecl renders the declaration as a Coq enum_decl.
+// infoTerm: a map<string,string> as (key, value) pairs sorted by key
+func infoTerm(m map[string]string) string {
+	keys := make([]string, 0, len(m))
+	for k := range m {
+		keys = append(keys, k)
+	}
+	sort.Strings(keys)
+	parts := make([]string, len(keys))
+	for i, k := range keys {
+		parts[i] = fmt.Sprintf("(%s, %s)", vh.BytesTerm(k), vh.BytesTerm(m[k]))
+	}
+	return "[" + strings.Join(parts, ";") + "]"
+}
+
+func infoFieldsTerm(fs [][3]string) string {
+	parts := make([]string, len(fs))
+	for i, f := range fs {
+		parts[i] = fmt.Sprintf("(%s, %s, %s)", vh.BytesTerm(f[0]), vh.BytesTerm(f[1]), vh.BytesTerm(f[2]))
+	}
+	return "[" + strings.Join(parts, ";") + "]"
+}
+
+func (e EnumEnv) optInfo(i int) map[string]string {
+	if i < len(e.OptInfos) {
+		return e.OptInfos[i]
+	}
+	return nil
+}
+
 func (e EnumEnv) DeclCoq() string {
 	var opts []string
 	if e.Unspecified != "" {
-		opts = append(opts, fmt.Sprintf("(%s, %s)", vh.BytesTerm(e.Unspecified), vh.BytesTerm(e.UnspecDesc)))
+		opts = append(opts, fmt.Sprintf("(%s, %s, %s)", vh.BytesTerm(e.Unspecified), vh.BytesTerm(e.UnspecDesc), infoTerm(e.UnspecInfo)))
 	}
 	for i, o := range e.Options {
 		d := ""
 		if i < len(e.OptDescs) {
 			d = e.OptDescs[i]
 		}
-		opts = append(opts, fmt.Sprintf("(%s, %s)", vh.BytesTerm(o), vh.BytesTerm(d)))
+		opts = append(opts, fmt.Sprintf("(%s, %s, %s)", vh.BytesTerm(o), vh.BytesTerm(d), infoTerm(e.optInfo(i))))
 	}
-	return fmt.Sprintf("(ED %s %s [%s])", vh.BytesTerm(e.Desc), vh.BytesTerm(e.Prefix), strings.Join(opts, ";"))
+	return fmt.Sprintf("(ED %s %s [%s] %s)", vh.BytesTerm(e.Desc), vh.BytesTerm(e.Prefix), strings.Join(opts, ";"), infoFieldsTerm(e.InfoFields))
 }
 
 func (e EnumEnv) J5S() string {
@@ -174,22 +207,44 @@ func (e EnumEnv) J5S() string {
 	if e.ExplicitPrefix {
 		fmt.Fprintf(&sb, "\tprefix = %s\n", q(e.Prefix))
 	}
-	opt := func(name, desc string) {
-		if desc == "" {
-			fmt.Fprintf(&sb, "\toption %s\n", name)
-		} else {
-			fmt.Fprintf(&sb, "\toption %s {\n\t\t| %s\n\t}\n", name, desc)
+	for _, f := range e.InfoFields {
+		fmt.Fprintf(&sb, "\tinfo {\n\t\tname = %s\n", q(f[0]))
+		if f[1] != "" {
+			fmt.Fprintf(&sb, "\t\tlabel = %s\n", q(f[1]))
 		}
+		if f[2] != "" {
+			fmt.Fprintf(&sb, "\t\tdescription = %s\n", q(f[2]))
+		}
+		sb.WriteString("\t}\n")
+	}
+	opt := func(name, desc string, info map[string]string) {
+		if desc == "" && len(info) == 0 {
+			fmt.Fprintf(&sb, "\toption %s\n", name)
+			return
+		}
+		fmt.Fprintf(&sb, "\toption %s {\n", name)
+		if desc != "" {
+			fmt.Fprintf(&sb, "\t\t| %s\n", desc)
+		}
+		keys := make([]string, 0, len(info))
+		for k := range info {
+			keys = append(keys, k)
+		}
+		sort.Strings(keys)
+		for _, k := range keys {
+			fmt.Fprintf(&sb, "\t\tinfo.%s = %s\n", k, q(info[k]))
+		}
+		sb.WriteString("\t}\n")
 	}
 	if e.Unspecified != "" {
-		opt(e.Unspecified, e.UnspecDesc)
+		opt(e.Unspecified, e.UnspecDesc, e.UnspecInfo)
 	}
 	for i, o := range e.Options {
 		d := ""
 		if i < len(e.OptDescs) {
 			d = e.OptDescs[i]
 		}
-		opt(o, d)
+		opt(o, d, e.optInfo(i))
 	}
 	sb.WriteString("}\n")
 	return sb.String()
